@@ -665,6 +665,7 @@ func (g *GcsEmu) finishUpload(ctx context.Context, baseUrl HttpBaseUrl, obj *sto
 	}
 	obj.Md5Hash = md5Hash
 
+	var meta *storage.Object
 	err := g.locks.Run(ctx, lockName(bucket, filename), func(ctx context.Context) error {
 		defer verifPoint("write.done", g.store, bucket, filename)
 		verifPoint("write.locked", g.store, bucket, filename)
@@ -687,6 +688,16 @@ func (g *GcsEmu) finishUpload(ctx context.Context, baseUrl HttpBaseUrl, obj *sto
 			return fmt.Errorf("failed to create %s/%s: %w", bucket, filename, err)
 		}
 		verifPoint("write.afterStore", g.store, bucket, filename)
+
+		// respond with object metadata, read while the object is still locked: once the lock is released another
+		// request may overwrite or delete the object before this one has built its response
+		meta, err = g.store.GetMeta(baseUrl, bucket, filename)
+		if err != nil {
+			return fmt.Errorf("failed to get meta for %s/%s: %w", bucket, filename, err)
+		}
+		if meta == nil {
+			return fmt.Errorf("failed to get meta for %s/%s: object not found after it was stored", bucket, filename)
+		}
 		return nil
 	})
 
@@ -694,12 +705,6 @@ func (g *GcsEmu) finishUpload(ctx context.Context, baseUrl HttpBaseUrl, obj *sto
 		return nil, err
 	}
 	verifPoint("write.beforeRespRead", g.store, bucket, filename)
-
-	// respond with object metadata
-	meta, err := g.store.GetMeta(baseUrl, bucket, filename)
-	if err != nil {
-		return nil, fmt.Errorf("failed to get meta for %s/%s: %w", bucket, filename, err)
-	}
 	return meta, nil
 }
 
